@@ -305,6 +305,15 @@ func ruleTypedNil(c *Ctx) {
 								withErr = true
 							}
 						case *types.Basic:
+							// a failure flag known to be set on this path (`d, wrongType := helper(); if wrongType { return }`)
+							for x := b; x != nil && x.Idom() != nil; x = x.Idom() {
+								dd := x.Idom()
+								if ifi, isIf := dd.Instrs[len(dd.Instrs)-1].(*ssa.If); isIf && ifi.Cond == o && len(dd.Succs) == 2 {
+									if s0 := dd.Succs[0]; (s0 == x || s0.Dominates(x)) && len(s0.Preds) == 1 {
+										withErr = true
+									}
+								}
+							}
 							// a failure flag set beside the nil (`wrongType = true; return`)
 							for _, leaf := range phiLeaves(o, map[ssa.Value]bool{}) {
 								if k, ok := leaf.(*ssa.Const); ok && k.Value != nil && k.Value.String() == "true" && len(phiLeaves(o, map[ssa.Value]bool{})) == 1 {
